@@ -76,7 +76,8 @@ def run(report, p):
             elif t[0] == "call" and t[1] in p.funcs:
                 helpers.add(t[1])
             else:
-                r2.check(False, cf, call, f"manifest file name does not come from a name helper: {show(t)[:100]}", construct="name origin")
+                # the name is built in place (a helper was inlined by hand?): not a harmful shape in itself, but not one the rule can judge
+                raise AnalysisError(f"{cf.loc(call)}: the manifest file name is not produced by a name helper ({show(t)[:80]}); the fresh-name rule cannot be evaluated on this shape")
         gen_helper = None
         for hq in sorted(helpers):
             h = p.funcs[hq]
@@ -98,7 +99,7 @@ def run(report, p):
                     first = next((v for v in fs.values if isinstance(v, ast.FormattedValue)), None)
                     r2.check(first is not None and norm(first.value) == norm(idx_expr), h, rets[0], "the number inside the file name is not the generation number that is returned", construct="name uses index")
         if gen_helper is None:
-            r2.check(False, wng, wng.node, "no helper returning (file name, generation number) found", construct="numbered name helper")
+            raise AnalysisError(f"{wng.qual}: no helper returning (file name, generation number) found; the fresh-name rule cannot be evaluated")
         else:
             # generation_number store uses the helper's second element
             stores = [n for n in walk_no_nested(wng.node) if isinstance(n, ast.Assign) and any(isinstance(t, ast.Attribute) and t.attr == "generation_number" for t in n.targets)]
